@@ -360,6 +360,10 @@ func (src *BatchRelease) ConvertTo(dst conversion.Hub) error {
 		if strings.EqualFold(src.Annotations[RolloutStyleAnnotation], string(BlueGreenRollingStyle)) {
 			obj.Spec.ReleasePlan.RollingStyle = v1beta1.BlueGreenRollingStyle
 		}
+		if obj.Spec.ReleasePlan.RollingStyle == "" {
+			// no (known) style annotation: the style written in the v1alpha1 spec itself must not get lost
+			obj.Spec.ReleasePlan.RollingStyle = v1beta1.RollingStyleType(srcSpec.ReleasePlan.RollingStyle)
+		}
 
 		obj.Spec.ReleasePlan.EnableExtraWorkloadForCanary = srcSpec.ReleasePlan.EnableExtraWorkloadForCanary
 
